@@ -196,7 +196,7 @@ theorem zcurve_parts_runs (dim order k n : Nat) (hk : 1 ≤ k) (hord : order ≤
       fun pos h => writeIds_get n k perm p0 hnd hlt pos (by omega)
     refine ⟨perm, writeIds n k perm p0, hsome, hperm, hpw, ?_, ?_, hget, ?_, ?_⟩
     · simp only [partition, hp0, ne_eq, not_true_eq_false, if_false, Nat.not_lt.mpr hord, hn, hsome,
-        show k ≠ 0 by omega]
+        show k ≠ 0 by omega, writeIdsA_toList]
     · rw [writeIds_length n k perm p0 hnd hlt, hp0]
     · intro pos pos' h h'
       rw [hget pos (by omega), hget pos' h']
@@ -256,6 +256,9 @@ example : (List.range 7).map (ZCurve.chunkId 7 3) = [0,0,0,1,1,2,2] := by decide
 
 /-- `SortSpec` is met by the insertion sort the driver uses; a concrete 2-level sort. -/
 example : ZCurve.SortSpec ZCurve.sortByKey := ZCurve.sortByKey_spec
+
+/-- … and by the merge sort the driver uses on large inputs. -/
+example : ZCurve.SortSpec ZCurve.mergeByKey := ZCurve.mergeByKey_spec
 
 example : ZCurve.sortRec 4 ZCurve.sortByKey (fun path i => (i / 4 ^ (1 - path.length)) % 4) 2 []
     [5,3,15,0,9,7,7,2] = some [0,2,3,5,7,7,9,15] := by decide
